@@ -105,6 +105,40 @@ def main():
         P = tuple(np.array([x[d] for x in pts]).reshape(shp) for d in range(f.sdim))
         r['pw_eval'] = guarded(lambda: f.pointwise_eval(P))
         r['pw_jac'] = guarded(lambda: f.pointwise_jacobian(P))
+        # grid axes in other containers / memory layouts: the same numbers must give the same arrays
+        r['grid_variants'] = []
+        if 'ok' in r['grid_eval'] and 'ok' in r['grid_jac']:
+            base_e, base_j = f.grid_eval(grid), f.grid_jacobian(grid)
+            for vname, mk in (('lists', lambda ax: [float(t) for t in ax]), ('tuple-of-arrays', None),
+                              ('strided', lambda ax: np.repeat(ax, 2)[::2]), ('reversed-stride', lambda ax: np.ascontiguousarray(ax[::-1])[::-1])):
+                gv = tuple(grid) if mk is None else [mk(ax) for ax in grid]
+                try:
+                    r['grid_variants'].append({'kind': vname, 'same_eval': bool(np.array_equal(f.grid_eval(gv), base_e)),
+                                               'same_jac': bool(np.array_equal(f.grid_jacobian(gv), base_j))})
+                except Exception as e:  # noqa
+                    r['grid_variants'].append({'kind': vname, 'err': errclass(e), 'msg': str(e)[:120]})
+        # the same scattered points as 2-D / 3-D coordinate arrays in several memory layouts and containers:
+        # logical element [idx] of every variant is the same point, so the results must be the same arrays
+        r['layouts'] = []
+        n = len(pts)
+        for shp2 in ((2, 3), (2, 3, 2)):
+            size = int(np.prod(shp2))
+            L = [np.array([pts[k % n][d] for k in range(size)]).reshape(shp2) for d in range(f.sdim)]
+            variants = {
+                'C': lambda A: np.ascontiguousarray(A),
+                'F': lambda A: np.asfortranarray(A),
+                'T': lambda A: np.ascontiguousarray(A.T).T,                       # transposed view of a C array
+                'strided': lambda A: np.repeat(A, 2, axis=-1)[..., ::2],          # non-contiguous slice
+                'reversed': lambda A: np.ascontiguousarray(A[::-1])[::-1],        # negative stride
+                'list-of-F': lambda A: np.asfortranarray(A),
+            }
+            for vname, mk in variants.items():
+                Pv = [mk(A) for A in L]
+                assert all(np.array_equal(a_, b_) for a_, b_ in zip(Pv, L))
+                Pv = Pv if vname == 'list-of-F' else tuple(Pv)
+                r['layouts'].append({'shape': list(shp2), 'layout': vname,
+                                     'pw_eval': guarded(lambda: f.pointwise_eval(Pv)),
+                                     'pw_jac': guarded(lambda: f.pointwise_jacobian(Pv))})
         # array-valued call: f(X, y) with one array coordinate
         if pts:
             xs0 = [x[0] for x in pts]
@@ -188,7 +222,9 @@ def main():
                 d['sides'].append(e)
             return d
         elif name == 'cylinderize':
-            g = f.cylinderize(float.fromhex(op['z0']), float.fromhex(op['z1']), support=tuple(F(op['support'])))
+            pos = [float.fromhex(op[k]) for k in ('z0', 'z1') if k in op]
+            k2 = {'support': tuple(F(op['support']))} if 'support' in op else {}
+            g = f.cylinderize(*pos, **k2)
         elif name in ('outer_sum', 'outer_product', 'tensor_product'):
             other = build(op['other'])
             s_other = snap(other)
@@ -219,20 +255,30 @@ def main():
         name = c['ctor']
         a = c.get('args', {})
         fl = lambda k: float.fromhex(a[k])
+        # only the arguments present in `args` are passed: everything else takes its documented default
+        kw = lambda *names: {k: float.fromhex(a[k]) for k in names if k in a}
         if name in ('circular_arc', 'circular_arc_3pt', 'circular_arc_5pt', 'circular_arc_7pt'):
-            g = getattr(geometry, name)(fl('alpha'), fl('r'))
+            g = getattr(geometry, name)(fl('alpha'), **kw('r'))
         elif name in ('semicircle', 'circle', 'disk'):
-            g = getattr(geometry, name)(fl('r'))
+            g = getattr(geometry, name)(**kw('r'))
         elif name in ('quarter_annulus', 'bspline_quarter_annulus'):
-            g = getattr(geometry, name)(fl('r1'), fl('r2'))
+            g = getattr(geometry, name)(**kw('r1', 'r2'))
         elif name == 'line_segment':
-            g = geometry.line_segment(F(a['x0']), F(a['x1']), support=tuple(F(a['support'])), intervals=int(a['intervals']))
+            k2 = {}
+            if 'support' in a:
+                k2['support'] = tuple(F(a['support']))
+            if 'intervals' in a:
+                k2['intervals'] = int(a['intervals'])
+            x0, x1 = F(a['x0']), F(a['x1'])
+            if a.get('scalar_ends'):
+                x0, x1 = x0[0], x1[0]
+            g = geometry.line_segment(x0, x1, **k2)
         elif name == 'identity':
             g = geometry.identity([tuple(F(e)) for e in a['extents']])
         elif name == 'unit_cube':
-            g = geometry.unit_cube(dim=int(a['dim']), num_intervals=int(a['num_intervals']))
+            g = geometry.unit_cube(**{k: int(a[k]) for k in ('dim', 'num_intervals') if k in a})
         elif name == 'unit_square':
-            g = geometry.unit_square(int(a['num_intervals']))
+            g = geometry.unit_square(**{k: int(a[k]) for k in ('num_intervals',) if k in a})
         elif name == 'twisted_box':
             g = geometry.twisted_box()
         else:
@@ -304,6 +350,14 @@ def main():
                     r = {'status': errclass(e), 'msg': str(e)[:200]}
                 r['self_unchanged'] = (snap(f) == before)
                 res['ops'].append(r)
+            # history on one object: after all other evaluations and operations the first evaluation is reproduced bit for bit
+            try:
+                g0 = [np.array(F(ax)) for ax in case['grid']]
+                again = f.grid_eval(g0)
+                first = np.array(F(res['eval']['grid_eval']['ok']['v'])).reshape(res['eval']['grid_eval']['ok']['shape']) if 'ok' in res['eval']['grid_eval'] else None
+                res['reeval_same'] = None if first is None else bool(np.array_equal(again, first))
+            except Exception as e:  # noqa
+                res['reeval_same'] = 'err:' + errclass(e)
             res['unchanged'] = (snap(f) == before)
             res['status'] = 'Ok'
         except Exception as e:  # noqa
